@@ -111,16 +111,18 @@ Definition mk_finite (k : iterkind) (items : list value) : domain :=
 Definition dom_size (d : domain) : option nat :=
   match d with DFinite vs _ => Some (length vs) | DRange sz => sz end.
 
-(** [0 <= value < self._size] for a number; comparing a non-number with 0 raises TypeError *)
+(** [isinstance(value, int) and 0 <= value < self._size] (since /repo 973b650; before that the
+    isinstance test was missing -- see [range_contains_old] in Proofs/Domain_dom.v).
+    A Python value is given by its equality class [v] and the flag [isint] = isinstance(value, int)
+    (bool included): 1 and 1.0 are the same [v] and differ only in that flag. *)
 Definition q_lt_size (q : Q) (sz : option nat) : bool :=
   match sz with None => true | Some n => negb (Qle_bool (inject_Z (Z.of_nat n)) q) end.
-Definition dom_contains (d : domain) (v : value) : result bool :=
+Definition range_contains (sz : option nat) (v : value) (isint : bool) : bool :=
+  isint && match v with VNum q => Qle_bool 0 q && q_lt_size q sz | VOther _ => false end.
+Definition dom_contains (d : domain) (v : value) (isint : bool) : result bool :=
   match d with
   | DFinite vs _ => Ok (existsb (value_eqb v) vs)            (* value in self.values *)
-  | DRange sz => match v with
-                 | VNum q => Ok (Qle_bool 0 q && q_lt_size q sz)
-                 | VOther _ => Err TypeErr
-                 end
+  | DRange sz => Ok (range_contains sz v isint)
   end.
 
 (** Python list indexing [l[z]] *)
@@ -457,23 +459,21 @@ Definition bij_oracle (items : list value) (size : nat)
                 | None => rbool_eqb c (Ok false) && rvalue_eqb n (Err KeyErr)
                 end) tab.
 
-(** RangeDomain of finite size [n]: for every probed value, contains holds exactly for the
-    integers 0..n-1, and numberize / denumberize return the value itself. *)
+(** RangeDomain of finite size [n]: for every probed Python value (equality class + isint flag),
+    contains holds exactly for the ints 0..n-1, and on those numberize / denumberize return the
+    value itself. *)
 Definition in_range_int (n : nat) (v : value) : bool :=
   match as_int v with Some z => ((0 <=? z) && (z <? Z.of_nat n))%Z | None => false end.
 Definition range_oracle (n : nat) (size : option nat)
-           (tab : list (value * (result bool * result value * result value))) : bool :=
+           (tab : list (value * bool * (result bool * result value * result value))) : bool :=
   option_eqb Nat.eqb size (Some n)
-  && forallb (fun e : value * (result bool * result value * result value) =>
-                let '(v, (c, nu, de)) := e in
-                match v with
-                | VNum _ => rbool_eqb c (Ok (in_range_int n v))
-                            && (negb (in_range_int n v) || (rvalue_eqb nu (Ok v) && rvalue_eqb de (Ok v)))
-                | VOther _ => negb (rbool_eqb c (Ok true))
-                end) tab.
-(** the guard of the positive theorem: no probed number is a non-integer *)
-Definition integral_probe (v : value) : bool :=
-  match v with VNum q => Pos.eqb (Qden q) 1 | VOther _ => true end.
+  && forallb (fun e : value * bool * (result bool * result value * result value) =>
+                let '(v, b, (c, nu, de)) := e in
+                let inr := b && in_range_int n v in
+                rbool_eqb c (Ok inr) && (negb inr || (rvalue_eqb nu (Ok v) && rvalue_eqb de (Ok v)))) tab.
+(** well-formed flag: only an integral number can be an int *)
+Definition int_flag_ok (p : value * bool) : bool :=
+  negb (snd p) || match fst p with VNum q => Pos.eqb (Qden q) 1 | VOther _ => false end.
 
 (** equality is by content *)
 Definition eq_oracle (d : domain) (eqs : list (domain * (bool * bool))) : bool :=
@@ -580,11 +580,11 @@ Definition build (c : dctor) : domain :=
 (** One domain case.  [probes]: values asked of contains / numberize (for a finite domain they
     include every item); [dargs]: the arguments given to denumberize (for a finite domain of
     size n: the integers -n-1 .. n); the rest are the implementation's answers.
-    Verdicts: 0 ok; 1 an oracle rejects; 2 ill-formed case (harness); 5 the oracle rejects only
-    because a RangeDomain contains a non-integer (known finding), the implementation agreeing
-    with the faithful model; 10.. the answers differ from the model's although no oracle rejects. *)
+    Every probe carries its isinstance(_, int) flag.
+    Verdicts: 0 ok; 1 an oracle rejects; 2 ill-formed case (harness); 10.. the answers differ
+    from the model's although no oracle rejects. *)
 Definition dom_case :=
-  (dctor * list value * list value *
+  (dctor * list (value * bool) * list value *
    (domain * option nat * list (result bool) * list (result value) * list (result value)
     * list (domain * (bool * bool))))%type.
 
@@ -592,15 +592,17 @@ Definition den_window (n : nat) (dargs : list value) (iden : list (result value)
   map snd (filter (fun p => in_range_int n (fst p)) (combine dargs iden)).
 
 Definition dom_check (x : dom_case) : nat :=
-  let '(c, probes, dargs, (iobj, isize, icont, inum, iden, ieqs)) := x in
+  let '(c, tprobes, dargs, (iobj, isize, icont, inum, iden, ieqs)) := x in
+  let probes := map fst tprobes in
   let d := build c in
   if negb (Nat.eqb (length probes) (length icont) && Nat.eqb (length probes) (length inum)
-           && Nat.eqb (length dargs) (length iden) && q_canon_values probes) then 2
+           && Nat.eqb (length dargs) (length iden) && q_canon_values probes
+           && forallb int_flag_ok tprobes) then 2
   else
   let agree :=
       dom_same iobj d
       && option_eqb Nat.eqb isize (dom_size d)
-      && list_eqb rbool_eqb icont (map (dom_contains d) probes)
+      && list_eqb rbool_eqb icont (map (fun p => dom_contains d (fst p) (snd p)) tprobes)
       && list_eqb rvalue_eqb inum (map (dom_numberize d) probes)
       && list_eqb rvalue_eqb iden (map (dom_denumberize d) dargs)
       && forallb (fun e : domain * (bool * bool) =>
@@ -624,12 +626,10 @@ Definition dom_check (x : dom_case) : nat :=
   | CRange (Some n) =>
     (* for a RangeDomain denumberize is asked on the probes themselves *)
     if negb (list_eqb value_eqb dargs probes) then 2 else
-    let tab := combine probes (combine (combine icont inum) iden) in
+    let tab := combine tprobes (combine (combine icont inum) iden) in
     if negb (eq_oracle d ieqs) then 1
     else if range_oracle n isize tab then (if agree then 0 else 10)
-    else
-      let tab' := filter (fun e => integral_probe (fst e)) tab in
-      if agree && range_oracle n isize tab' then 5 else 1
+    else 1
   end.
 
 (** One factor case: constructor arguments, the implementation's constructor outcome (the
